@@ -122,6 +122,10 @@ def analyse_next(ctx, v, kind, body):
         elif core.callee_base(c.key) == ITER_NEXT:
             recv = vw.op(tj["args"][0])
             info.pulls.append((vw, bi, recv))
+        elif core.callee_base(c.key) == "core::slice::get" and vw.body.in_cycle(bi) and vw is fv.root:
+            # an indexed scan `while let Some(&c) = haystack.get(pos) {..; pos += 1}`: the read is the pull, its receiver the pair
+            # (slice, index); the rules that accept this form check that the index is a counter stepped on every round
+            info.pulls.append((vw, bi, ("call", "<indexed>", (vw.op(tj["args"][0]), vw.op(tj["args"][1])), (vw.body.path, bi))))
         elif c.key == GET_UNCHECKED:
             tab = vw.op(tj["args"][0])
             info.unchecked.append((vw, bi, tab, vw.op(tj["args"][1]), tj))
@@ -1155,7 +1159,35 @@ def _iter_leftmost_one(ctx, roles, v, info, rules):
     if want("ITER-LM"):
         ctx.check(uses_hay and uses_pos, "ITER-LM", b, "scan-from-pos:" + tag, b.loc(pbi),
                   "the scan must read self.haystack starting at self.pos; source is %s" % show(recv), show(recv))
-        if v.tag == "bw":
+        if v.tag == "bw" and recv[1] == "<indexed>":
+            # indexed scan: the index is a counter that starts at self.pos and is stepped by one exactly once on every round,
+            # after the round's reads (the term engine is flow-insensitive for a loop-carried local: the order is a CFG fact)
+            from .pat import Phi as Phi_, B as B_, K as K_, ANY as ANY_, m as m_
+            idx = recv[2][1]
+            shape = idx[0] == "phi" and m_(Phi_(lambda t, e: t[0] == "field" and t[3] == "pos" and self_param(t[1]), B_("Add", ANY_, K_(1)), req=[0, 1]), idx)
+            # the counter local is the one the phi's loop marker names; its updates are the assignments to it inside the cycle
+            cl_ = {x_[1] for x_ in walk(idx) if x_[0] == "loop"}
+            upd = []
+            if len(cl_) == 1:
+                cl_ = cl_.pop()
+                for bi_, si_, st_ in b.stmts():
+                    if st_["k"] == "assign" and not st_["lhs"]["proj"] and st_["lhs"]["local"] == cl_ and b.in_cycle(bi_):
+                        t_ = pnorm(root.T.rvalue(st_["rv"]))
+                        if t_[0] == "field" and t_[1][0] == "ovf":
+                            t_ = t_[1]
+                        if t_[0] in ("bin", "ovf") and t_[1] == "Add" and (is_const(t_[3], 1) or is_const(t_[2], 1)):
+                            upd.append(bi_)
+                        else:
+                            shape = False
+            info.idx_updates = upd
+            some_ = [tb_ for sb_, st2_, d_ in switches_on(root, lambda d: d[0] == "discr" and d[1][0] == "call" and d[1][3] == (b.path, pbi))
+                     for tb_ in [opt_arms(st2_)[0]]]
+            shape = shape and bool(upd) and len(some_) == 1 and pbi not in b.reach(some_[0], avoid_blocks=upd) and \
+                all(u2 not in (b.reach(u, avoid_blocks=[pbi]) - {u}) for u in upd for u2 in upd)
+            ctx.check(shape, "ITER-LM", b, "absolute-offsets:" + tag, b.loc(pbi),
+                      "positions must be absolute: the index starts at self.pos and is stepped by one exactly once per round; found %s (updates at %s)"
+                      % (show(idx), upd))
+        elif v.tag == "bw":
             # skip(enumerate(iter(haystack)), self.pos): enumerate must be applied before skip
             shape = recv[0] == "call" and core.callee_base(recv[1]) == "core::iter::Iterator::skip" and \
                 recv[2][0][0] == "call" and core.callee_base(recv[2][0][1]) == "core::iter::Iterator::enumerate" and \
@@ -1165,7 +1197,9 @@ def _iter_leftmost_one(ctx, roles, v, info, rules):
         else:
             # haystack[self.pos..] through the checked `str::get(..)?` (the range is re-validated on every call because AsRef need
             # not return the same string twice) or, historically, `get_unchecked`
-            sl = recv[2][0] if (recv[0] == "call" and recv[1].endswith("::chars") and recv[2]) else None
+            # the decoder is `chars()` (positions by accumulating len_utf8) or `char_indices()` (positions relative to the suffix)
+            sl = recv[2][0] if (recv[0] == "call" and (recv[1].endswith("::chars") or recv[1].endswith("::char_indices")) and recv[2]) else None
+            info.char_indices = recv[0] == "call" and recv[1].endswith("::char_indices")
             if sl is not None and sl[0] == "payload":
                 sl = sl[1]
             shape = sl is not None and sl[0] == "call" and isinstance(sl[1], str) and sl[1].split("@")[0] in (STR_GET_UNCHECKED, "core::str::get") \
@@ -1184,7 +1218,13 @@ def _iter_leftmost_one(ctx, roles, v, info, rules):
     some_arm, none_arm = opt_arms(st)
     # label
     if want("ITER-LABEL"):
-        if v.tag == "bw":
+        if v.tag == "bw" and recv[1] == "<indexed>":
+            # haystack[index], read before the round's index update
+            okl = labarg[0] == "elem" and core.same(labarg[1], recv[2][0]) and core.same(labarg[2], recv[2][1]) and \
+                all(tbi not in (b.reach(u, avoid_blocks=[pbi]) - {u}) for u in getattr(info, "idx_updates", []))
+        elif v.tag == "bw":
+            okl = labarg[0] == "field" and labarg[3] == "1" and labarg[1][0] == "payload" and labarg[1][1][0] == "call" and labarg[1][1][3] == psite
+        elif recv[0] == "call" and recv[1].endswith("::char_indices"):
             okl = labarg[0] == "field" and labarg[3] == "1" and labarg[1][0] == "payload" and labarg[1][1][0] == "call" and labarg[1][1][3] == psite
         else:
             okl = labarg[0] == "payload" and labarg[1][0] == "call" and labarg[1][3] == psite
@@ -1293,13 +1333,23 @@ def _iter_leftmost_one(ctx, roles, v, info, rules):
         ctx.check(paired, "ITER-LM", b, "candidate-pos-paired:" + tag, b.loc(wbi, wsi),
                   "candidate and resume offset must be updated together on every path")
     wt = pnorm(root.T.rvalue(ws["rv"]))
-    if v.tag == "bw":
+    if v.tag == "bw" and recv[1] == "<indexed>":
+        # index + 1, the index read before the round's update
+        okw = wt[0] == "bin" and wt[1] == "Add" and (
+            (is_const(wt[3], 1) and core.same(wt[2], recv[2][1])) or (is_const(wt[2], 1) and core.same(wt[3], recv[2][1]))) and \
+            all(wbi not in (b.reach(u, avoid_blocks=[pbi]) - {u}) for u in getattr(info, "idx_updates", []))
+        if want("LAZY-END") or want("ITER-LM"):
+            ctx.check(okw, "ITER-LM", b, "resume-offset:" + tag, b.loc(wbi, wsi),
+                      "self.pos must become (index of the byte just consumed) + 1; found %s" % show(wt), show(wt))
+    elif v.tag == "bw":
         # pos + 1 where pos = enumerate index of the pull
         okw = wt[0] == "bin" and wt[1] == "Add" and (
             (is_const(wt[3], 1) and _lm_index(wt[2], psite)) or (is_const(wt[2], 1) and _lm_index(wt[3], psite)))
         if want("LAZY-END") or want("ITER-LM"):
             ctx.check(okw, "ITER-LM", b, "resume-offset:" + tag, b.loc(wbi, wsi),
                       "self.pos must become (index of the byte just consumed) + 1; found %s" % show(wt), show(wt))
+    elif recv[0] == "call" and recv[1].endswith("::char_indices"):
+        _safe_str_indices(ctx, v, info, b, root, wt, wbi, wsi, psite, pbi, tag)
     else:
         _safe_str(ctx, v, info, b, root, wt, wbi, wsi, psite, pbi, tag)
     # ---- emission
@@ -1437,6 +1487,36 @@ def _safe_str(ctx, v, info, b, root, wt, wbi, wsi, psite, pbi, tag):
     every_iter = any(pbi not in (b.reachable_from(b.succ(pbi)[0], avoid=[a]) - {b.succ(pbi)[0]}) or True for a in accs)
     ctx.check(bool(accs) and all(b.dominates(a, wbi) for a in accs), "SAFE-STR", b, "skips-accumulates-every-char:" + tag, b.span,
               "the width of every pulled character must be accumulated before the position can advance")
+
+
+def _safe_str_indices(ctx, v, info, b, root, wt, wbi, wsi, psite, pbi, tag):
+    """SAFE-STR for the `haystack[start..].char_indices()` form: the item is (offset of the char within the suffix, char), so
+    the byte offset just behind the char is  start + offset + len_utf8(char)  with start = the value of self.pos the suffix was
+    cut at.  The term engine is flow-insensitive for fields, so "the same start" is a MIR fact: self.pos is read only before
+    the scan loop (a re-read inside the loop would see the already advanced position)."""
+    def flat(t):
+        if t[0] in ("bin", "ovf") and t[1] == "Add":
+            return flat(t[2]) + flat(t[3])
+        return [t]
+    parts = flat(wt)
+    item = lambda t: t[0] == "payload" and t[1][0] == "call" and t[1][3] == psite
+    n_pos = [p for p in parts if p[0] == "field" and p[3] == "pos" and self_param(p[1])]
+    n_off = [p for p in parts if p[0] == "field" and p[3] == "0" and item(p[1])]
+    n_len = [p for p in parts if p[0] == "call" and isinstance(p[1], str) and p[1].endswith("len_utf8") and len(p[2]) == 1 and
+             p[2][0][0] == "field" and p[2][0][3] == "1" and item(p[2][0][1])]
+    ok = len(parts) == 3 and len(n_pos) == 1 and len(n_off) == 1 and len(n_len) == 1
+    ctx.check(ok, "SAFE-STR", b, "pos-advance:" + tag, b.loc(wbi, wsi),
+              "self.pos must become start + (offset of the char in the suffix) + len_utf8(char); found %s" % show(wt), show(wt))
+    reads = []
+    for bi, si, st in b.stmts():
+        if st["k"] != "assign":
+            continue
+        for pl in core._places(st["rv"], []):
+            lf = core.last_field(pl)
+            if lf and lf["name"] == "pos" and lf["adt"] == info.I and b.in_cycle(bi):
+                reads.append((bi, si))
+    ctx.check(not reads, "SAFE-STR", b, "start-read-before-scan:" + tag, b.loc(*reads[0]) if reads else b.span,
+              "the suffix start must be the value self.pos had when the suffix was cut: self.pos may not be read inside the scan loop")
 
 
 def _find_skips_local(b, wbi, wsi):
